@@ -15,7 +15,7 @@
 //! retain m                -> dropped k…      keep k iff bit (k mod 64) of m is set; keys in the order `drop` is called
 //! drain                   -> keys k…         in iteration (slot) order
 //! drainpartial n          -> keys k…         take n elements, then drop the `Drain`
-//! clear | clearnd | reset -> ok
+//! clear | clearnd | reset -> ok              clear, clear_no_drop, reset_no_drop
 //! reserve n               -> ok
 //! clone                   -> ok              the table is replaced by its clone
 //! intoiter                -> keys k…         then the table is a fresh `new()`
@@ -673,7 +673,7 @@ fn dfs(w: &mut dyn Write, alphabet: &[String], depth: u32) {
 
 /// exhaustive: every operation sequence of length `depth` over the alphabet, as one case per
 /// (family, prefix) with the remaining levels enumerated depth-first via push/pop
-fn gen_exhaustive(w: &mut dyn Write, rng: &mut Rng, nkeys: u64, depth: u32, fams: &[(&str, u64)], prefixes: &[Vec<String>]) {
+fn gen_exhaustive(w: &mut dyn Write, rng: &mut Rng, nkeys: u64, depth: u32, fams: &[(&str, u64)], prefixes: &[Vec<String>], with_reset: bool) {
     for (fam, c) in fams {
         let hs: Vec<u64> = (0..nkeys).map(|k| family_hash(fam, k, *c, rng)).collect();
         let mut alphabet: Vec<String> = Vec::new();
@@ -685,6 +685,9 @@ fn gen_exhaustive(w: &mut dyn Write, rng: &mut Rng, nkeys: u64, depth: u32, fams
         alphabet.push("drain".into());
         alphabet.push("retain 5".into()); // keep keys 0 and 2
         alphabet.push("retain 26".into()); // keep keys 1, 3, 4
+        if with_reset {
+            alphabet.push("reset".into());
+        }
         for (pi, pre) in prefixes.iter().enumerate() {
             // the first level is split into separate cases to keep cases small
             for (ai, a) in alphabet.iter().enumerate() {
@@ -940,7 +943,8 @@ fn generate(cfg: &GenCfg, rng: &mut Rng, w: &mut dyn Write) {
         }
         writeln!(w, "dump").unwrap();
     }
-    // (e) reset_no_drop leaves `free` behind
+    // (e) reset_no_drop followed by every other operation (regression for /repo f20789c: a stale
+    //     `free` counter made the next insertion index an empty slot array)
     if reset {
         for (i, mid) in ["", "reserve 0", "reserve 1", "reserve 5", "drain", "clear", "retain 0", "clone", "find 1 1", "rem 1 1"].iter().enumerate() {
             writeln!(w, "case reset-{}", i).unwrap();
@@ -965,22 +969,22 @@ fn generate(cfg: &GenCfg, rng: &mut Rng, w: &mut dyn Write) {
     if cfg.thorough {
         // all sequences of length 5 over 14 operations (5 keys) for the main families,
         // length 4 for the others and behind prefixes that put tombstones / wrap-around in place
-        gen_exhaustive(w, rng, 5, 5, &fams_all[..4], &empty);
-        gen_exhaustive(w, rng, 5, 4, &fams_all[4..], &empty);
+        gen_exhaustive(w, rng, 5, 5, &fams_all[..4], &empty, reset);
+        gen_exhaustive(w, rng, 5, 4, &fams_all[4..], &empty, reset);
         let pre: Vec<Vec<String>> = vec![
             vec!["ins $0".into(), "ins $1".into(), "ins $2".into(), "rem $0".into(), "rem $1".into()],
             vec!["ins $0".into(), "ins $1".into(), "ins $2".into(), "ins $3".into(), "ins $4".into(), "rem $1".into(), "rem $3".into()],
             vec!["withcap 12".into(), "ins $4".into(), "ins $3".into(), "rem $4".into()],
         ];
-        gen_exhaustive(w, rng, 5, 4, &fams_all[..4], &pre);
+        gen_exhaustive(w, rng, 5, 4, &fams_all[..4], &pre, reset);
     } else {
-        gen_exhaustive(w, rng, 5, 4, &fams_all[..4], &empty);
-        gen_exhaustive(w, rng, 4, 3, &fams_all[4..], &empty);
+        gen_exhaustive(w, rng, 5, 4, &fams_all[..4], &empty, reset);
+        gen_exhaustive(w, rng, 4, 3, &fams_all[4..], &empty, reset);
         let pre: Vec<Vec<String>> = vec![
             vec!["ins $0".into(), "ins $1".into(), "ins $2".into(), "rem $0".into(), "rem $1".into()],
             vec!["withcap 12".into(), "ins $3".into(), "ins $2".into(), "rem $3".into()],
         ];
-        gen_exhaustive(w, rng, 4, 3, &fams_all[..4], &pre);
+        gen_exhaustive(w, rng, 4, 3, &fams_all[..4], &pre, reset);
     }
 
     // ---- long phase-structured random sequences
@@ -992,7 +996,7 @@ fn generate(cfg: &GenCfg, rng: &mut Rng, w: &mut dyn Write) {
             let nkeys = if cfg.thorough && r % 5 == 4 { 200 } else { nkeys };
             let phases = if cfg.thorough { 60 } else { 25 };
             let dump_every = if nkeys > 40 { 4 } else { 1 };
-            gen_long(w, rng, &format!("long-{}-{}-{}", fam, nkeys, r), fam, nkeys, phases, dump_every, false);
+            gen_long(w, rng, &format!("long-{}-{}-{}", fam, nkeys, r), fam, nkeys, phases, dump_every, reset && r % 2 == 1);
         }
         if reset {
             let fam = fams[(r % 8) as usize];
